@@ -3,6 +3,7 @@ package main
 import (
 	"fmt"
 	"go/types"
+	"strings"
 
 	"golang.org/x/tools/go/ssa"
 )
@@ -52,6 +53,20 @@ func ruleOptGate(c *Ctx) {
 				found += "; reachable with includeChecksum=false: " + w
 			}
 			c.Check(R, fmt.Sprintf("%s.EncodeWithColor/getChecksum#%d", pk, i+1), call.Pos(), imp, "reached only if includeChecksum", found)
+			// and whenever it is requested: from the nearest point that does not depend on the flag,
+			// the call is reached exactly when the flag is set
+			var top ssa.Instruction = call
+			if len(site.Path) > 0 {
+				top = site.Path[0]
+			}
+			dom := top.Block().Idom()
+			for dom != nil && strings.Contains(n.ReachCond(fn, nil, dom).String(), "includeChecksum") {
+				dom = dom.Idom()
+			}
+			local := n.ReachCondDeep(fn, dom, site)
+			clearOpaque(local) // any further condition, whatever it tests, narrows "whenever"
+			eq, w := CondEquivalent(local, &Cond{Kind: CBool, Name: "includeChecksum"})
+			c.Check(R, fmt.Sprintf("%s.EncodeWithColor/getChecksum#%d-whenever", pk, i+1), call.Pos(), eq, "check characters are computed whenever includeChecksum is set", local.String()+" "+w)
 		}
 	}
 }
